@@ -348,3 +348,46 @@ Example C04_engine_changed_joins_get_refresh_nonvacuous :
   Engine.join_logical sp s0 2 = Gen.States.WAITING /\ Engine.join_logical sp s 2 = Gen.States.ERROR /\
   Engine.affected sp s 0 = [2] /\ snd (Engine.check_affected sp (s, []) 0) = [Engine.OSchedRefresh 2].
 Proof. exact EngineAffected.affected_complete_nonvacuous. Qed.
+
+(* "starts at most once per run however many branches trigger it", for the whole engine model: every program,
+   every id order, every event list without operator reruns (deliveries in any order, duplicates, refresh jobs,
+   pauses, resumes, stops, skips): a task execution never has two action executions - except a join that lies on
+   a cycle of the workflow graph, which Task.defer deliberately re-arms for the next iteration
+   (Proofs/EngineOnce.v: invariant K through the mutually recursive dispatch and every event) *)
+Require Mistral.Proofs.EngineOnce.
+Theorem C04_engine_join_starts_at_most_once : forall sp u evs,
+  forallb EngineOnce.once_ev evs = true ->
+  forall tid r, nth_error (Engine.tasks (Engine.run sp u evs)) tid = Some r ->
+  Engine.is_join sp (Engine.t_name r) = true -> Engine.can_be_reentered sp (Engine.t_name r) = false ->
+  EngineOnce.nacts (Engine.run sp u evs) tid <= 1.
+Proof. exact EngineOnce.join_starts_at_most_once. Qed.
+Print Assumptions C04_engine_join_starts_at_most_once.
+
+Theorem C04_engine_task_execution_starts_once : forall sp u evs,
+  forallb EngineOnce.once_ev evs = true ->
+  forall tid r, nth_error (Engine.tasks (Engine.run sp u evs)) tid = Some r -> EngineOnce.guarded sp r = true ->
+  EngineOnce.nacts (Engine.run sp u evs) tid <= 1.
+Proof. exact EngineOnce.once_per_run. Qed.
+Print Assumptions C04_engine_task_execution_starts_once.
+
+(* hypotheses met: a partial join triggered by both of its branches, every message delivered twice; and the
+   exclusion is needed: a join on a cycle runs again on the next iteration *)
+Example C04_engine_join_starts_once_nonvacuous :
+  let evs := EngineOnce.dup_all (Engine.EStart :: EngineLive.drain_evs EngineOnce.once_demo (fst (Engine.step EngineOnce.once_demo Engine.init Engine.EStart)) 100) in
+  let s := Engine.run EngineOnce.once_demo [] evs in
+  forallb EngineOnce.once_ev evs = true /\ Engine.can_be_reentered EngineOnce.once_demo 2 = false /\
+  Engine.is_join EngineOnce.once_demo 2 = true /\
+  map Engine.t_name (Engine.tasks s) = [1; 0; 2; 3] /\
+  map Engine.t_state (Engine.tasks s) = [Gen.States.SUCCESS; Gen.States.SUCCESS; Gen.States.SUCCESS; Gen.States.SUCCESS] /\
+  map (EngineOnce.nacts s) [0; 1; 2; 3] = [1; 1; 1; 1] /\ Engine.wf_state s = Gen.States.SUCCESS /\ Engine.pend s = [] /\
+  Engine.t_trig (Engine.get_task s 2) = [1; 0] /\ length evs = 33.
+Proof. exact EngineOnce.once_demo_ok. Qed.
+
+Example C04_engine_cycle_join_runs_again :
+  let evs := Engine.EStart :: EngineLive.drain_evs EngineOnce.cyc_demo (fst (Engine.step EngineOnce.cyc_demo Engine.init Engine.EStart)) 100 in
+  let s := Engine.run EngineOnce.cyc_demo [] evs in
+  forallb EngineOnce.once_ev evs = true /\ Engine.can_be_reentered EngineOnce.cyc_demo 1 = true /\
+  map Engine.t_name (Engine.tasks s) = [0; 1; 2; 2] /\
+  map (EngineOnce.guarded EngineOnce.cyc_demo) (Engine.tasks s) = [true; false; true; true] /\
+  map (EngineOnce.nacts s) [0; 1; 2; 3] = [1; 2; 1; 1] /\ Engine.pend s = [].
+Proof. exact EngineOnce.cycle_join_runs_again. Qed.
